@@ -187,7 +187,10 @@ func c06Trees(w *fw.Worker) []*pt.Prog {
 	for _, s := range srcs {
 		prog, errs, _ := run.Parse(s)
 		if prog == nil {
-			w.Internal("C06/C07: a hand-written source is not accepted by the parser: " + fmt.Sprint(errs) + "\n" + s)
+			// never on the tree these sources were written for (go test -tags verif ./checks audits that); a tree whose parser rejects
+			// one of them deviates in what it ACCEPTS, which other properties judge - here the source is left out and the run says so
+			w.Count("hand-written-source-rejected", 1)
+			w.NotExhaustive("a hand-written source is not accepted by this tree's parser and was left out: " + fw.FirstLine(fmt.Sprint(errs)) + " in " + fw.Trunc(s, 60))
 			continue
 		}
 		p, err := astconv.Prog(prog)
